@@ -95,12 +95,12 @@ Qed.
 
 (** ---- builder invariant: document i of the builder decodes to entry i of the expected view, and the
     builder is itself a well-formed shard *)
-Definition doc_ok (b : shard) (d : sdoc) (e : N * ddoc) : Prop :=
-  exists r, nth_error (sh_repos b) (sd_repo d) = Some r /\ sr_tomb r = false /\ sr_id r = fst e /\
+Definition doc_ok (b : shard) (d : sdoc) (e : srepo * ddoc) : Prop :=
+  exists r, nth_error (sh_repos b) (sd_repo d) = Some r /\ sr_tomb r = false /\ r = fst e /\
             decode b d = Ok (snd e) /\ (sd_lang d < length (sh_langs b))%nat /\
             length (sd_mask d) = length (sr_branches r) /\ NoDup (sr_branches r) /\
             (sd_sub d < length (sr_subs r))%nat /\ NoDup (sr_subs r).
-Definition BInv (b : shard) (V : list (N * ddoc)) : Prop := Forall2 (doc_ok b) (sh_docs b) V.
+Definition BInv (b : shard) (V : list (srepo * ddoc)) : Prop := Forall2 (doc_ok b) (sh_docs b) V.
 
 Definition extends (b b' : shard) : Prop :=
   (exists x, sh_repos b' = sh_repos b ++ x) /\ (exists y, sh_langs b' = sh_langs b ++ y).
@@ -125,12 +125,26 @@ Proof.
   eapply Forall2_impl'; [|exact H]. intros; eapply doc_ok_extends; eauto.
 Qed.
 
-Lemma binv_view : forall b V, BInv b V -> view b = V.
+Lemma binv_viewr : forall b V, BInv b V -> viewr b = V.
 Proof.
-  intros b V H. unfold view, BInv in *. induction H as [|d e ds es Hd _ IH]; simpl; auto.
+  intros b V H. unfold viewr, BInv in *. induction H as [|d e ds es Hd _ IH]; simpl; auto.
   rewrite IH. destruct Hd as [r [H1 [H2 [H3 [H4 _]]]]].
-  unfold view_doc. rewrite H1, H4, H2. simpl. destruct e; simpl in *; subst; reflexivity.
+  unfold viewr_doc. rewrite H1, H4, H2. simpl. destruct e; simpl in *; subst; reflexivity.
 Qed.
+(** the id view is a projection of the repository view *)
+Lemma view_viewr : forall sh, view sh = map id_entry (viewr sh).
+Proof.
+  intros sh. unfold view, viewr. induction (sh_docs sh) as [|d rest IH]; simpl; auto.
+  rewrite map_app, IH. f_equal. unfold view_doc, viewr_doc.
+  destruct (nth_error (sh_repos sh) (sd_repo d)) as [r|]; auto.
+  destruct (decode sh d); auto. destruct (sr_tomb r); reflexivity.
+Qed.
+Lemma flat_map_view_viewr : forall l, flat_map view l = map id_entry (flat_map viewr l).
+Proof.
+  induction l as [|sh rest IH]; simpl; auto. rewrite map_app, IH, view_viewr. reflexivity.
+Qed.
+Lemma binv_view : forall b V, BInv b V -> view b = map id_entry V.
+Proof. intros b V H. rewrite view_viewr, (binv_viewr _ _ H). reflexivity. Qed.
 Lemma binv_wf : forall b V, BInv b V -> wf_shard b.
 Proof.
   intros b V H. unfold wf_shard, BInv in *. induction H as [|d e ds es Hd _ IH]; constructor; auto.
@@ -142,7 +156,7 @@ Lemma add_doc_ok : forall sh d r dd b V,
   nth_error (sh_repos sh) (sd_repo d) = Some r -> sr_tomb r = false ->
   length (sd_mask d) = length (sr_branches r) -> NoDup (sr_branches r) -> NoDup (sr_subs r) ->
   decode sh d = Ok dd -> last_opt (sh_repos b) = Some r -> BInv b V ->
-  exists b', add_doc b dd = Ok b' /\ BInv b' (V ++ [(sr_id r, dd)]) /\ sh_repos b' = sh_repos b.
+  exists b', add_doc b dd = Ok b' /\ BInv b' (V ++ [(r, dd)]) /\ sh_repos b' = sh_repos b.
 Proof.
   intros sh d r dd b V Hr Ht Hm Hnb Hns Hdec Hlast HB.
   unfold decode in Hdec. rewrite Hr in Hdec.
@@ -189,14 +203,14 @@ Definition Cur (sh b : shard) (last : option nat) : Prop :=
   end.
 
 Lemma view_doc_wf : forall sh d r, nth_error (sh_repos sh) (sd_repo d) = Some r ->
-  view_doc sh d = match decode sh d with Ok dd => if sr_tomb r then [] else [(sr_id r, dd)] | _ => [] end.
-Proof. intros sh d r H. unfold view_doc. rewrite H. reflexivity. Qed.
+  viewr_doc sh d = match decode sh d with Ok dd => if sr_tomb r then [] else [(r, dd)] | _ => [] end.
+Proof. intros sh d r H. unfold viewr_doc. rewrite H. reflexivity. Qed.
 
 (** ---- merge's loop over the documents of one input shard *)
 Lemma copy_docs_view : forall sh docs b last V b',
   Forall (wf_doc sh) docs -> BInv b V -> Cur sh b last ->
   copy_docs sh docs b last = Ok b' ->
-  BInv b' (V ++ flat_map (view_doc sh) docs).
+  BInv b' (V ++ flat_map (viewr_doc sh) docs).
 Proof.
   intros sh docs. induction docs as [|d rest IH]; intros b last V b' Hwf HB HC H; simpl in *.
   - inversion H; subst. rewrite app_nil_r. exact HB.
@@ -207,7 +221,7 @@ Proof.
     { destruct (decode sh d); simpl; eauto. }
     assert (Hstep : forall b1, last_opt (sh_repos b1) = Some r -> forall V1, BInv b1 V1 -> V1 = V ->
               (do dd <- decode sh d; do b2 <- add_doc b1 dd; copy_docs sh rest b2 (Some (sd_repo d))) = Ok b' ->
-              BInv b' (V ++ (match decode sh d with Ok dd => [(sr_id r, dd)] | _ => [] end) ++ flat_map (view_doc sh) rest)).
+              BInv b' (V ++ (match decode sh d with Ok dd => [(r, dd)] | _ => [] end) ++ flat_map (viewr_doc sh) rest)).
     { intros b1 Hl1 V1 HB1 -> H1. destruct (decode sh d) as [dd| |] eqn:Ed; simpl in H1; try discriminate.
       destruct (add_doc_ok sh d r dd b1 V Hr Et Hm Hnb Hns Ed Hl1 HB1) as [b2 [Ha [HB2 Hrep]]].
       rewrite Ha in H1. simpl in H1. rewrite app_assoc. eapply IH; eauto.
@@ -225,7 +239,7 @@ Qed.
 
 Lemma merge_loop_view : forall shards b V b',
   Forall wf_shard shards -> BInv b V -> merge_loop shards b = Ok b' ->
-  BInv b' (V ++ flat_map view shards).
+  BInv b' (V ++ flat_map viewr shards).
 Proof.
   induction shards as [|sh rest IH]; intros b V b' Hwf HB H; simpl in *.
   - inversion H; subst. rewrite app_nil_r. exact HB.
@@ -250,10 +264,10 @@ Lemma binv_empty : BInv empty_builder [].
 Proof. constructor. Qed.
 
 Lemma merge_binv : forall shards b, Forall wf_shard shards -> merge shards = Ok b ->
-  BInv b (flat_map view (sort_prio shards)).
+  BInv b (flat_map viewr (sort_prio shards)).
 Proof.
   intros shards b Hwf H. unfold merge in H. destruct shards as [|s0 rest]; [discriminate|].
-  change (flat_map view (sort_prio (s0 :: rest))) with ([] ++ flat_map view (sort_prio (s0 :: rest))).
+  change (flat_map viewr (sort_prio (s0 :: rest))) with ([] ++ flat_map viewr (sort_prio (s0 :: rest))).
   eapply merge_loop_view; eauto using binv_empty.
   eapply Permutation_Forall; [apply Permutation_sym, sort_prio_perm|exact Hwf].
 Qed.
@@ -281,11 +295,11 @@ Lemma explode_docs_view : forall sh docs cur last done Vc outs,
   end ->
   Forall single done ->
   explode_docs sh docs cur last done = Ok outs ->
-  flat_map view outs = flat_map view done ++ Vc ++ flat_map (view_doc sh) docs /\ Forall single outs.
+  flat_map viewr outs = flat_map viewr done ++ Vc ++ flat_map (viewr_doc sh) docs /\ Forall single outs.
 Proof.
   intros sh docs. induction docs as [|d rest IH]; intros cur last done Vc outs Hwf Hcur Hdone H; simpl in *.
   - inversion H; subst. rewrite flat_map_app, app_nil_r. destruct cur as [b|]; simpl.
-    + destruct Hcur as [HB [_ [Hs _]]]. rewrite app_nil_r, (binv_view _ _ HB). split; auto.
+    + destruct Hcur as [HB [_ [Hs _]]]. rewrite app_nil_r, (binv_viewr _ _ HB). split; auto.
       apply Forall_app_intro; auto.
     + destruct Hcur as [-> _]. split; auto. apply Forall_app_intro; auto.
   - inversion Hwf as [|? ? Hd Hrest]; subst.
@@ -302,16 +316,16 @@ Proof.
           destruct (set_repo empty_builder r); simpl in H; discriminate]. }
     (* a fresh builder for repo r *)
     assert (Hfresh : forall done', Forall single done' ->
-              flat_map view done' = flat_map view done ++ Vc ->
+              flat_map viewr done' = flat_map viewr done ++ Vc ->
               (do b1 <- set_repo empty_builder r; do dd0 <- Ok dd; do b2 <- add_doc b1 dd0;
                explode_docs sh rest (Some b2) (Some (sd_repo d)) done') = Ok outs ->
-              flat_map view outs = flat_map view done ++ Vc ++ ([(sr_id r, dd)] ++ flat_map (view_doc sh) rest) /\ Forall single outs).
+              flat_map viewr outs = flat_map viewr done ++ Vc ++ ([(r, dd)] ++ flat_map (viewr_doc sh) rest) /\ Forall single outs).
     { intros done' Hd' Hv H1.
       destruct (set_repo empty_builder r) as [b1| |] eqn:Es; simpl in H1; try discriminate.
       destruct (set_repo_ok _ _ _ _ Es binv_empty) as [HB1 [Hl1 [Hrep1 _]]].
       destruct (add_doc_ok sh d r dd b1 [] Hr Et Hm Hnb Hns Ed Hl1 HB1) as [b2 [Ha [HB2 Hrep]]].
       rewrite Ha in H1. simpl in H1.
-      destruct (IH (Some b2) (Some (sd_repo d)) done' [(sr_id r, dd)] outs Hrest) as [HV HS]; auto.
+      destruct (IH (Some b2) (Some (sd_repo d)) done' [(r, dd)] outs Hrest) as [HV HS]; auto.
       - split; [exact HB2|]. split; [exists r; rewrite Hrep; auto|]. split; [|discriminate].
         unfold single. rewrite Hrep, Hrep1. reflexivity.
       - split; auto. rewrite HV, Hv. rewrite <- !app_assoc. reflexivity. }
@@ -322,7 +336,7 @@ Proof.
         simpl in H.
         destruct (add_doc_ok sh d r dd b Vc Hr Et Hm Hnb Hns Ed Hl' HB) as [b2 [Ha [HB2 Hrep]]].
         rewrite Ha in H. simpl in H.
-        destruct (IH (Some b2) (Some (sd_repo d)) done (Vc ++ [(sr_id r, dd)]) outs Hrest) as [HV HS]; auto.
+        destruct (IH (Some b2) (Some (sd_repo d)) done (Vc ++ [(r, dd)]) outs Hrest) as [HV HS]; auto.
         -- split; [exact HB2|]. split; [exists r; rewrite Hrep; auto|]. split; [|discriminate].
            unfold single in *. rewrite Hrep. exact Hs.
         -- split; auto. rewrite HV. rewrite <- !app_assoc. reflexivity.
@@ -331,10 +345,33 @@ Proof.
         -- destruct cur as [b|]; simpl; [|apply Forall_app_intro; auto].
            destruct Hcur as [_ [_ [Hs _]]]. apply Forall_app_intro; auto.
         -- rewrite flat_map_app. destruct cur as [b|]; simpl.
-           ++ destruct Hcur as [HB _]. rewrite app_nil_r, (binv_view _ _ HB). reflexivity.
+           ++ destruct Hcur as [HB _]. rewrite app_nil_r, (binv_viewr _ _ HB). reflexivity.
            ++ destruct Hcur as [-> _]. reflexivity.
     + destruct cur as [b|]; [destruct Hcur as [_ [_ [_ Hn]]]; congruence|].
       destruct Hcur as [-> _]. apply Hfresh in H; auto.
       * simpl. apply Forall_app_intro; auto.
       * rewrite flat_map_app. simpl. reflexivity.
+Qed.
+
+(** ---- the view theorems, for the repository view and (projected) for the id view *)
+Lemma merge_viewr : forall shards b, Forall wf_shard shards -> merge shards = Ok b ->
+  viewr b = flat_map viewr (sort_prio shards).
+Proof. intros shards b Hwf H. apply binv_viewr. apply merge_binv; auto. Qed.
+Lemma merge_view : forall shards b, Forall wf_shard shards -> merge shards = Ok b ->
+  view b = flat_map view (sort_prio shards).
+Proof.
+  intros shards b Hwf H. rewrite view_viewr, (merge_viewr _ _ Hwf H), flat_map_view_viewr. reflexivity.
+Qed.
+Lemma explode_viewr : forall sh outs, wf_shard sh -> explode sh = Ok outs ->
+  flat_map viewr outs = viewr sh /\ Forall single outs.
+Proof.
+  intros sh outs Hwf H. unfold explode in H.
+  destruct (explode_docs_view sh (sh_docs sh) None None [] [] outs Hwf (conj eq_refl eq_refl) (Forall_nil _) H) as [H1 H2].
+  split; auto.
+Qed.
+Lemma explode_view : forall sh outs, wf_shard sh -> explode sh = Ok outs ->
+  flat_map view outs = view sh /\ Forall single outs.
+Proof.
+  intros sh outs Hwf H. destruct (explode_viewr sh outs Hwf H) as [H1 H2]. split; auto.
+  rewrite flat_map_view_viewr, H1, view_viewr. reflexivity.
 Qed.
